@@ -157,3 +157,16 @@ Definition refresh_narrowing_by_base (c : rcert) (p : peer) (requested : list ne
 
 Definition blocks_eqb (x y : list netblock) : bool :=
   Nat.eqb (length x) (length y) && forallb (fun xy => nb_eqb (fst xy) (snd xy)) (combine x y).
+
+(* ---------------------------------------------------------------------------------------------
+   The request side of minting.  net.ParseCIDR("a.b.c.d/p") returns the IPNet whose address is
+   MASKED with the prefix mask (the text may name any address of the block); that canonical block is
+   what parseRoleCertGenParams hands to GenIPRestrictedX509Cert.  Decimal parsing of the text stays
+   with the library (run in front of the model); [cidr_ok] is what a CIDR text can denote. *)
+Definition canon (b : netblock) : netblock :=
+  mk (N.land (o0 b) (mask_octet (plen b) 0)) (N.land (o1 b) (mask_octet (plen b) 1))
+     (N.land (o2 b) (mask_octet (plen b) 2)) (N.land (o3 b) (mask_octet (plen b) 3)) (plen b).
+Definition cidr_ok (b : netblock) : bool :=
+  (plen b <=? 32) && is_byte (o0 b) && is_byte (o1 b) && is_byte (o2 b) && is_byte (o3 b).
+Definition mint_request (cn : bs) (req : list netblock) : rcert := minted cn (map canon req).
+
